@@ -127,7 +127,7 @@ def handle (line : String) : String :=
     | some l =>
       let items := if script == "-" then [] else script.splitOn ","
       let evs : List Ev := items.filterMap fun it =>
-        if it == "r" then some Ev.refuse
+        if it.startsWith "r" then some Ev.refuse   -- r, r0 … r6: XFER_REFUSE with that reason code
         else if it.startsWith "a" then (it.drop 1).toNat?.map Ev.ack
         else none
       -- the "all sent" notification races with the acknowledgements; a missing answer ends in a timeout
